@@ -443,7 +443,7 @@ func serveStatus(wrt http.ResponseWriter, req *http.Request) {
 		Version:   currentVersion,
 		Build:     buildstamp,
 		Timestamp: types.TimeNow(),
-		Sessions:  make([]debugSession, 0, len(globals.sessionStore.sessCache)),
+		Sessions:  make([]debugSession, 0, 10),
 		Topics:    make([]debugTopic, 0, 10),
 		UserCache: make([]debugCachedUser, 0, 10),
 	}
